@@ -236,6 +236,43 @@ def oracle(case):
             if summed[k].tolist() != exp or got[k].tolist() != exp:
                 return f"pointwise sum {summed[k].tolist()} / from_labels cm {got[k].tolist()} vs rule {exp} at t={tv!r} (pos={pos.tolist()}, neg={neg.tolist()}, {sc}/{ec})"
         return None
+    if case["clause"] == "layout":
+        # thresholds (and score arrays) of any shape and any memory layout: C / Fortran order, transposed and negative-stride views
+        from score_analysis.scores import pointwise_cm
+        labels = np.array([1] * len(pos) + [0] * len(neg))
+        scores = np.concatenate([pos, neg])
+        flat = np.resize(t, 12) if len(t) else np.zeros(12)
+        variants = {"C(3,4)": flat.reshape(3, 4), "F(3,4)": np.asfortranarray(flat.reshape(3, 4)), "T-view(4,3)": flat.reshape(3, 4).T,
+                    "reversed-view": flat[::-1], "permuted(2,3,2)": flat.reshape(2, 2, 3).transpose(0, 2, 1), "strided": np.repeat(flat, 2)[::2].reshape(4, 3)}
+        s = sa.Scores(pos, neg, nb_easy_pos=ep, nb_easy_neg=en, score_class=sc, equal_class=ec)
+        s0 = sa.Scores.from_labels(labels, scores, score_class=sc, equal_class=ec)
+        for name, tv in variants.items():
+            got = np.asarray(s.cm(tv).matrix)
+            if got.shape != tv.shape + (2, 2):
+                return f"cm shape {got.shape} for threshold layout {name}"
+            pw = pointwise_cm(labels, scores, tv, score_class=sc, equal_class=ec)
+            if pw.shape != scores.shape + tv.shape + (2, 2):
+                return f"pointwise_cm shape {pw.shape} for threshold layout {name}"
+            summed = pw.sum(axis=0)
+            for idx in np.ndindex(tv.shape):
+                exp = B.cm_oracle(pos, neg, ep, en, sc, ec, tv[idx])
+                if got[idx].tolist() != exp:
+                    return f"cm(threshold layout {name})[{idx}] = {got[idx].tolist()} but the decision rule at t={tv[idx]!r} gives {exp} (pos={pos.tolist()}, neg={neg.tolist()}, {sc}/{ec})"
+                exp0 = B.cm_oracle(pos, neg, 0, 0, sc, ec, tv[idx])
+                if summed[idx].tolist() != exp0 or np.asarray(s0.cm(tv).matrix)[idx].tolist() != exp0:
+                    return f"pointwise sum (threshold layout {name})[{idx}] = {summed[idx].tolist()} but the decision rule at t={tv[idx]!r} gives {exp0} (pos={pos.tolist()}, neg={neg.tolist()}, {sc}/{ec})"
+        # 2-d score / label arrays in Fortran order
+        if len(scores) >= 2 and len(scores) % 2 == 0:
+            sc2, lb2 = np.asfortranarray(scores.reshape(2, -1)), np.asfortranarray(labels.reshape(2, -1))
+            pw = pointwise_cm(lb2, sc2, flat[:3], score_class=sc, equal_class=ec)
+            if pw.shape != sc2.shape + (3, 2, 2):
+                return f"pointwise_cm shape {pw.shape} for 2-d scores"
+            for i in np.ndindex(sc2.shape):
+                for k in range(3):
+                    one = B.cm_oracle([sc2[i]] if lb2[i] == 1 else [], [sc2[i]] if lb2[i] != 1 else [], 0, 0, sc, ec, flat[k])
+                    if pw[i][k].tolist() != one:
+                        return f"pointwise_cm(2-d Fortran-order scores)[{i},{k}] = {pw[i][k].tolist()}, rule gives {one} (score {sc2[i]!r}, label {lb2[i]}, t={flat[k]!r}, {sc}/{ec})"
+        return None
     raise ValueError(case["clause"])
 
 
@@ -263,6 +300,15 @@ def bounded(chk):
             chk.count("pointwise", 1, 1 if (pos or neg) else 0)
             if r:
                 chk.violation("pointwise", f"pointwise[{sc},{ec}]", r, B.jsonable(case))
+    for pos, neg in B.order_types(3 if chk.tier == "quick" else 4):
+        t = B.thresholds_for(pos + neg)
+        for sc, ec in B.CONFIGS:
+            case = {"clause": "layout", "pos": pos, "neg": neg, "ep": 1, "en": 2, "sc": sc, "ec": ec, "t": t.tolist()}
+            r = oracle(case)
+            chk.count("layout", 1, 1 if (pos or neg) else 0)
+            if r:
+                chk.violation("layout", f"layout[{sc},{ec}]", r, B.jsonable(case))
+    chk.bounded["bound"] += "; threshold arrays of shape (3,4) / (4,3) / (2,3,2) / (12,) in C order, Fortran order, transposed, permuted, strided and reversed views (order types of <= 3 scores)"
     chk.samples.append({"bounded-case": {"pos": [1.0, 2.0, 2.0], "neg": [2.0], "easy": [2, 3], "config": ["neg", "pos"], "thresholds": "19 values: each score, +-1ulp, midpoints, +-inf"}})
 
 
